@@ -254,6 +254,18 @@ theorem trailing_all_uncapped_counterexample :
       = some [[], [[2]], [[3]]] := by
   decide
 
+/-- KNOWN finding `C03-trailing-all-selfref-greedy`: on `A -> all B where x > b.x as b` (closure is the last step) the
+code keeps one greedy chain.  B.x = 5, 3, 9: the second B is skipped (3 > 5 fails) and reports nothing although
+the subset {B(3)} alone is admissible; the third B reports only the chain 5, 9, not {9}, {3, 9}.  The per-event
+statement for trailing closures is therefore proved for consistent filters only (`trailing_reports_each_extension`). -/
+theorem trailing_selfref_greedy_counterexample :
+    let steps : List Step := [{ ty := 0, alias := some 0 }, { ty := 1, alias := some 1, kleene := true, pred := some (.cmpRef 0 .gt 1 0) }]
+    let ev (i t : Nat) (x : Int) : Ev := { id := i, ty := t, x := some x, y := none }
+    (emittedAll (compile steps) { maxRuns := 4, lim := ⟨20, 10000⟩ } [ev 0 0 0, ev 1 1 5, ev 2 1 3, ev 3 1 9]).map
+      (fun o => o.map fun e => e.map fun g => g.map fun m => m.stack.map (·.ev.id))
+      = some [[], [[[0, 1]]], [], [[[0, 1, 3]]]] := by
+  decide
+
 /-- non-vacuity (the DESIGN.md probe): B.x = 5, 3, 9 with `x > b.x` yields exactly the five admissible subsets,
 in iteration order; with `maxResults = 2` the first two. -/
 example :
